@@ -3,8 +3,10 @@
 From CV Require Export Base.Bits.
 Local Open Scope Z_scope.
 
-Definition file_of (s : N) : Z := Z.of_N s mod 8.
-Definition rank_of (s : N) : Z := Z.of_N s / 8.
+(* file = s mod 8, rank = s / 8 (FileRank.v proves these forms); written with masks and shifts so that
+   the extracted code does not run a division for every square *)
+Definition file_of (s : N) : Z := Z.of_N (N.land s 7).
+Definition rank_of (s : N) : Z := Z.of_N (N.shiftr s 3).
 Definition sq_of (f r : Z) : N := Z.to_N (r * 8 + f).
 Definition on_board (f r : Z) : bool := (0 <=? f) && (f <? 8) && (0 <=? r) && (r <? 8).
 
